@@ -24,8 +24,10 @@ DRIVER = 'Init'
 REQUIRED_THEOREMS = [
     'leaf_default_last_wins', 'leaf_emit_last_wins', 'leaf_value_conflict_raises',
     'leaf_units_conflict_raises', 'leaf_serializer_conflict_raises',
-    'leaf_updater_never_raises', 'applyDefaults_value', 'setValue_leaf',
-    'exists_and_value',
+    'leaf_updater_never_raises', 'divider_never_raises', 'applyDefaults_value', 'setValue_leaf',
+    'exists_and_value', 'untouched_value', 'establish_reaches_lexical',
+    'declared_default_last_wins', 'exists_and_value_generate_partial', 'engineInitial_spec',
+    'deepMerge_later_wins', 'composite_given_state_wins',
 ]
 ANCHORS = [
     ('vivarium/core/store.py', [
@@ -1566,15 +1568,22 @@ def _replace(tree, g, key, pr):
     return out
 
 
-LEVEL_TEXT = ('Lean 4 theorems over an executable model of store generation: for every sequence of '
-              'declarations on one node the last `_default`/`_emit`/`_updater` wins and a second, '
-              'different `_value`/`_units`/`_serializer` is an error (ValueError), `_updater`/`_divider` '
-              'disagreements never are; for every tree and every initial state, after set_value and '
-              'apply_defaults every variable holds the state\'s value if present and not None, else its '
-              'explicit value, else its default; glob children named in the state are created from the '
-              'sub-schema; the model is tied to the code by a node-by-node correspondence check of '
-              'generate_state / Engine / Composite on generated composites.')
+LEVEL_TEXT = ('Lean 4 theorems over an executable model of store generation, all unbounded: for every '
+              'sequence of declarations on one node the last `_default`/`_emit`/`_updater` wins and a second, '
+              'different `_value`/`_units`/`_serializer` is ValueError while `_updater`/`_divider` '
+              'disagreements never raise; `_establish_path` lands at the lexical normal form of the wiring '
+              '(".." anywhere); for every list of leaf declarations by any number of processes on any tree '
+              'the declared node exists and carries the last declared default; for every tree and value, '
+              'set_value + apply_defaults leave the state\'s value unless it is None, then the default '
+              '(falsy values kept); later deep_merge wins in Composite.initial_state(). The model is tied to '
+              'the code by a node-by-node correspondence check of generate_state / Store.generate / Engine / '
+              'Composite on generated composites, and a lexical oracle checks the property on the '
+              'implementation alone.')
 LEVEL_NOTE = ('Trusted: Lean kernel; axioms ⊆ {propext, Classical.choice, Quot.sound}; the hand-written '
               'model of store.py/composer.py/topology.py generation, validated by differential runs. '
-              'See notes/C15.md for which end-to-end statements are proved in part (`…_partial`).')
-TECHNIQUE = 'Lean 4 proof (invariants over folds of declarations, induction over states) + model/code correspondence (differential) + lexical oracle'
+              'Proved in part (`exists_and_value_generate_partial`): that generate\'s walk over nested '
+              'schemas/topologies/globs yields the list of declarations, and set_value\'s descent from the '
+              'root, are covered by the correspondence check only. Candidate findings F20, F21 and two quirks '
+              'of glob ports under dict topologies are outside the oracle\'s well-formed class (notes/C15.md).')
+TECHNIQUE = ('Lean 4 proof (invariants over folds of declarations, induction over wiring paths) + '
+             'model/code correspondence (differential) + lexical oracle on the implementation')
